@@ -30,6 +30,10 @@ class orphan(Event):
     """An event nobody has a handler for (a legal leaf of a causal tree)."""
 
 
+class xclean(Event):
+    """Clean-up work fired by the application's `exception` handler (spec flag xfire)."""
+
+
 def _walk(events, fn, parent=None):
     for e in events:
         fn(e, parent)
@@ -124,6 +128,7 @@ class C05(Prop):
         e = _ev_strategy(2 if tier == 'quick' else 3)
         return st.fixed_dictionaries({
             'driver': st.sampled_from(['tick', 'run']),
+            'xfire': st.sampled_from([False, False, True]),
             'roots': st.lists(e, min_size=1, max_size=3),
         }).map(_number)
 
@@ -164,6 +169,16 @@ class C05(Prop):
             def _x(self, etype, evalue, tb, handler=None, fevent=None):
                 if not isinstance(evalue, Boom):
                     log.append(('stray', repr(evalue)))
+                elif spec.get('xfire'):
+                    # the application's error handler reacts by firing clean-up work: fired (transitively) while handling
+                    # the event whose handler raised, hence part of every closure that event belongs to
+                    self.fire(xclean(evalue.args[0][0], 1))
+
+            @H('xclean')
+            def _xc(self, eid, more):
+                log.append(('step', eid, 'xclean', more))       # counts as activity of the event that raised
+                if more:
+                    self.fire(xclean(eid, 0))
 
         app = App()
 
